@@ -97,7 +97,22 @@ def gen_tail(rng):
             "reqs": reqs, "script": script, "plan": plan, "workers": rng.choice([1, 2])}
 
 
-GENS = [(gen_generic, 5), (gen_mark, 3), (gen_tail, 2)]
+def gen_trickle(rng):
+    """a slow client: every send accepts a few bytes, then the socket would block; the producer's
+    writes are larger than what one I/O turn drains"""
+    chunks = [rng.choice([50, 100]) for _ in range(rng.choice([2, 3, 4]))]
+    plan = []
+    for _ in range(rng.randrange(6, 14)):
+        plan += [rng.choice([1, 10, 35]), 0]
+    script = [["send", 0]]
+    if rng.random() < 0.6:
+        script += [["stall"], ["resume"]]
+    return {"family": "trickle", "adj": {"outbuf_high_watermark": rng.choice([1, 50, 100, 150]), "send_bytes": rng.choice([1, 1, 100]),
+                                         "channel_request_lookahead": 0},
+            "reqs": [{"chunks": chunks, "close": rng.random() < 0.3}], "script": script, "plan": plan, "workers": 1}
+
+
+GENS = [(gen_generic, 5), (gen_mark, 3), (gen_tail, 2), (gen_trickle, 2)]
 
 
 def gen_scenario(rng):
